@@ -14,6 +14,8 @@
 import RaftVerif.Proofs.LeaderSpecs
 import RaftVerif.Proofs.ReplSafety
 import RaftVerif.Proofs.AppendEntries
+import RaftVerif.Proofs.ReplOrder
+import RaftVerif.Proofs.ReplExample
 set_option linter.unusedSimpArgs false
 namespace Raft
 open Node
@@ -71,5 +73,40 @@ theorem C03_acknowledged_position_is_final {cfg : Config} (hnd : cfg.voterIds.No
     (s.nodes leader).log.take (s.nodes leader).commit <+: (s'.nodes b).log.take (s'.nodes b).commit ∨
     (s'.nodes b).log.take (s'.nodes b).commit <+: (s.nodes leader).log.take (s.nodes leader).commit :=
   Repl.state_machine_safety hnd hr hfrom leader b
+
+/-! ### Real-time order (Proofs/ReplOrder.lean)
+
+    "Operation A completed before operation B was invoked" is a fact about the state in which B is
+    appended: a position (i1, T1) of a leader log, of that leader's own term, acknowledged by a quorum,
+    covers A's index. -/
+
+/-- **An operation submitted after another one was acknowledged comes later in the order — or never
+    completes.** Appended by a leader of a term at least T1 (the same leader or a later one) it gets an
+    index beyond i1; appended by a deposed leader that does not know it yet (term below T1) it lands on
+    a position no quorum will ever acknowledge. -/
+theorem C03_real_time_order {cfg : Config} (hnd : cfg.voterIds.Nodup) {s : Repl.AState} (hr : Repl.Reachable cfg s)
+    (l payload : Nat) (hl : (s.nodes l).role = .leader)
+    (i1 T1 c1 : Nat) (g1 : List Repl.AEntry) (hg1 : s.glog T1 = some (c1, g1)) (h1 : 1 ≤ i1) (hi1 : i1 ≤ g1.length)
+    (ht1 : Repl.termAt g1 i1 = T1) (hq : Repl.QuorumAcked cfg s i1 T1) :
+    (T1 ≤ (s.nodes l).term → i1 < (s.nodes l).log.length + 1) ∧
+    ((s.nodes l).term < T1 → ∀ s'', Repl.ReachableFrom cfg (Repl.appendState s l payload) s'' →
+      ¬ Repl.QuorumAcked cfg s'' ((s.nodes l).log.length + 1) (s.nodes l).term) := by
+  obtain ⟨h_a, h_b⟩ := Repl.append_after_commit hnd hr l payload hl i1 T1 c1 g1 hg1 h1 hi1 ht1 hq
+  refine ⟨h_a, fun hlt s'' hfrom => ?_⟩
+  have hr' := Repl.Reachable.step hr (Repl.appendState_step (cfg := cfg) s l payload hl)
+  exact (Repl.dead_forever hnd hr' hfrom (h_b hlt)).2
+
+/-- Non-vacuity (Proofs/ReplExample.lean): in `s7` leader 1 has committed index 2 of its term 1; the
+    next operation it appends gets index 3. -/
+example : (2 : Nat) < (Repl.s7.nodes 1).log.length + 1 := by
+  have h := (C03_real_time_order Repl.cfg3_nodup Repl.s7_reachable 1 0 (by decide) 2 1 1 [⟨1, 0⟩, ⟨1, 42⟩]
+    (by decide) (by decide) (by decide) (by decide)
+    ⟨[1, 2], Repl.quorum12, by
+      intro m hm
+      simp only [List.mem_cons, List.mem_nil_iff, or_false] at hm
+      rcases hm with rfl | rfl
+      · exact ⟨2, Nat.le_refl _, by decide⟩
+      · exact ⟨2, Nat.le_refl _, by decide⟩⟩).1
+  exact h (by decide)
 
 end Raft
